@@ -1,14 +1,19 @@
 import XzVerif.Model.ReadLoop
+import XzVerif.Proofs.ReadLoops
 /-
   C13 — Decoded output is independent of read sizes and source fragmentation; EOF is stable.
 
   Full statement aimed at: for every valid stream, every sequence of Read buffer lengths and every
   fragmentation of the source, the real reader's results are `readSeq content sizes`.  What is
-  proved here is the caller-visible contract of the model `ReadLoop.readSeq` for every content and
-  every schedule (no bound); that the three Go readers behave as `readSeq` — under every source
-  fragmentation — is established by the correspondence check (per-call (n, status) sequences), not
-  by a theorem: the decoder's internal laziness (dictionary ring, `decompress` granularity) is not
-  modelled at this level.  Hence `_partial` in the claim (see DESIGN.md §C13).
+  proved here is (1) the caller-visible contract `ReadLoop.readSeq` for every content and every
+  schedule (no bound), and (2) that the *mechanisms* refine it: the loop of `lzma.decoder.Read`
+  over a dictionary that is refilled by `decompress` in arbitrary batches (`C13_decoder_loop_*`,
+  including the zero-length case that was defect F11), and the chaining loops of `Reader2.Read`
+  (chunk readers), `streamReader.Read` (blocks) and `Reader.Read` (streams) over parts that each
+  satisfy the contract (`C13_chain_*`) — whatever the batch sizes and part boundaries.  That the
+  Go code is these loops, under every source fragmentation, is established by the correspondence
+  check (per-call (n, status) sequences).  `_partial`: ring-buffer indexing and the source side
+  (`io.ReadFull` over fragmented sources) are not modelled.
 -/
 namespace Props.C13
 open ReadLoop
@@ -129,6 +134,35 @@ theorem C13_lens_agree (content : List α) (sizes : List Nat) :
         simp only [List.length_drop] at this
         have hmin : min n content.length = n := by omega
         simp [this, hmin]
+
+/-- `lzma.decoder.Read`: whatever batches `decompress` produces, a call delivers exactly what the
+    contract says, reports EOF exactly when the content is shorter than the request, keeps the
+    rest, and preserves the decoder invariant -/
+theorem C13_decoder_loop_refines (d : ReadLoops.Dec α) (n : Nat) (hinv : d.eos = true → d.pending = []) :
+    let r := d.read n
+    r.1 = (readCall d.content n).1 ∧ r.2.1 = (readCall d.content n).2.1 ∧
+    r.2.2.content = (readCall d.content n).2.2 ∧ (r.2.2.eos = true → r.2.2.pending = []) :=
+  ReadLoops.Dec.read_refines d n hinv
+
+/-- a zero-length read never reports end-of-stream (the repaired F11) -/
+theorem C13_decoder_zero_length (d : ReadLoops.Dec α) : d.read 0 = ([], false, d) :=
+  ReadLoops.Dec.read_zero d
+
+/-- whole schedules through the decoder loop equal the contract -/
+theorem C13_decoder_loop_schedule (sizes : List Nat) (d : ReadLoops.Dec α) (hinv : d.eos = true → d.pending = []) :
+    ReadLoops.Dec.readSeq d sizes = readSeq d.content sizes :=
+  ReadLoops.Dec.readSeq_refines sizes d hinv
+
+/-- chaining loops (chunks, blocks, streams): independent of where the part boundaries lie -/
+theorem C13_chain_refines (parts : List (List α)) (n : Nat) :
+    let r := ReadLoops.chainReadCall parts n
+    r.1 = (readCall parts.flatten n).1 ∧ r.2.1 = (readCall parts.flatten n).2.1 ∧
+    r.2.2.flatten = (readCall parts.flatten n).2.2 :=
+  ReadLoops.chainReadCall_refines parts n
+
+theorem C13_chain_schedule (sizes : List Nat) (parts : List (List α)) :
+    ReadLoops.chainReadSeq parts sizes = readSeq parts.flatten sizes :=
+  ReadLoops.chainReadSeq_refines sizes parts
 
 /-- non-vacuity: a schedule with zero- and one-byte reads over a 5-byte content -/
 example : readSeq [1, 2, 3, 4, 5] [0, 1, 0, 3, 4, 2, 0] =
